@@ -402,10 +402,9 @@ class Runner:
                         qq = torch.linalg.qr(a @ qq).Q
                         it += 1
                         err = float((last - qq).norm() / last.norm())
-                    # orthogonal iteration amplifies rounding by (lambda_max / lambda_i) per step: compare only while that stays small,
-                    # and never across a (numerically) singular factor, whose trailing columns are arbitrary
-                    lam = torch.linalg.eigvalsh((a + a.T) / 2)
-                    stable = float(lam.min()) > 1e-12 * float(lam.max()) and (float(lam.max() / lam.min()) ** it) * 1e-16 < 1e-9
+                    # (the same float64 operations on the same inputs - the factor tensor and the stored previous basis - as the code
+                    # performs: no conditioning argument is needed, differences beyond rounding mean a different algorithm)
+                    stable = True
                     if stable:
                         # same column spaces up to sign and ordering: |Q_ref^T Q| is a permutation matrix (a tolerance-controlled stop may
                         # fall one iteration earlier or later when the change is within rounding of the tolerance)
